@@ -180,7 +180,7 @@ func main() {
 			}
 			stats[s.Req.form()+"->"+k]++
 			c.Class("B/" + h.Rig.Kind + "/" + s.Req.form() + "->" + k)
-			if ops := s.Got.Out.Ops; h.Rig.Kind == "lru" && len(ops) == 1 && ops[0].Op == "add" && !prev[ops[0].H] && len(prev) == h.Rig.Cap {
+			if ops := s.Got.Out.Ops; h.Rig.Kind == "lru" && len(ops) >= 1 && ops[len(ops)-1].Op == "add" && !prev[ops[len(ops)-1].H] && len(prev) == h.Rig.Cap {
 				stats["lru:evictions"]++
 			}
 			prev = map[string]bool{}
@@ -206,12 +206,16 @@ func main() {
 			}
 		}
 	}
-	if hits == 0 || misses == 0 || stats["lru:evictions"] == 0 {
+	if (hits == 0 || misses == 0 || stats["lru:evictions"] == 0) && c.Violations() == 0 {
 		vlib.Infra("vacuous random histories: %d hash-only hits, %d misses, %d evictions", hits, misses, stats["lru:evictions"])
 	}
 	events, err := rep.validate(hs, scratch+"/trace")
 	if err != nil {
-		vlib.Infra("trace validation: %v", err)
+		if c.Violations() > 0 {
+			fmt.Fprintf(os.Stderr, "[c15] trace validation stopped: %v\n", err)
+		} else {
+			vlib.Infra("trace validation: %v", err)
+		}
 	}
 	fmt.Fprintf(os.Stderr, "[c15] B: %d histories x %d requests (%d concurrent), %d lines accepted by TLC, hash-only hits %d / misses %d, evictions %d, %.1fs\n",
 		len(hs), hlen, nh/3, events, hits, misses, stats["lru:evictions"], time.Since(tB).Seconds())
@@ -236,6 +240,9 @@ func main() {
 	sort.Strings(softKeys)
 	if len(softKeys) > 0 {
 		fmt.Fprintf(os.Stderr, "[c15] note: error wording differs from the specification's class (not a violation): %v\n", softKeys)
+	}
+	if softKeys == nil {
+		softKeys = []string{}
 	}
 	c.Set("error_wording_differences", softKeys)
 	c.Set("model", map[string]any{"config": cfg, "distinct_states": mc.Distinct, "edges": len(g.edges), "covering_paths": len(paths),
